@@ -3,10 +3,12 @@
 from __future__ import annotations
 
 import ast
+import itertools
 
 from ..astutil import attr_stores, call_name, calls_in, dotted, guard_atoms, lexical_guards, name_stores, unparse, walk_local
 from ..index import FuncInfo
 from ..report import Registry, chain, sub
+from ._helpers_rob_h2 import Abs, Closure, Opq, PathInterp, Unsupported
 
 R = Registry(
     "C09",
@@ -37,9 +39,11 @@ PROC = "engine/processors.py"
 PCY = "engine/_processors_cy.py"
 
 KINDS = {
-    "bind_processor": {"impl": "bind_processor", "user": {"process_bind_param"}, "order": "impl(user)"},
-    "literal_processor": {"impl": "literal_processor", "user": {"process_literal_param", "process_bind_param"}, "order": "impl(user)"},
-    "result_processor": {"impl": "result_processor", "user": {"process_result_value"}, "order": "user(impl)"},
+    # hooks: in order of precedence (literal rendering falls back to process_bind_param)
+    "bind_processor": {"impl": "bind_processor", "user": {"process_bind_param"}, "hooks": ["process_bind_param"], "order": "impl(user)"},
+    "literal_processor": {"impl": "literal_processor", "user": {"process_literal_param", "process_bind_param"},
+                          "hooks": ["process_literal_param", "process_bind_param"], "order": "impl(user)"},
+    "result_processor": {"impl": "result_processor", "user": {"process_result_value"}, "hooks": ["process_result_value"], "order": "user(impl)"},
 }
 
 # classes that define bind_processor but deliberately keep the default (absent) result processing
@@ -48,67 +52,137 @@ R2_EXCEPTIONS = {
 }
 
 
-def _terminals(name: str, outer: ast.AST, depth=0, seen=frozenset()):
-    """Terminal expressions a local name of `outer` may alias (following plain `a = b` chains into
-    enclosing-function bindings); `None` constants are dropped."""
-    out = []
-    if depth > 6 or name in seen:
-        return out
-    for n, v, st in name_stores(outer):
-        if n != name or v is None:
-            continue
-        if isinstance(v, ast.Constant) and v.value is None:
-            continue
-        if isinstance(v, ast.Name):
-            out.extend(_terminals(v.id, outer, depth + 1, seen | {name}))
-        else:
-            out.append(v)
-    return out
+# ---------------------------------------------------------------------- R1: path-wise composition of the generated processors
+class _Self(Abs):
+    pass
 
 
-def _role(expr: ast.AST):
-    """('impl', kind) for `self.impl_instance.<kind>(...)` / `self.impl.<kind>(...)`; ('user', method) for
-    `self.process_*`; None otherwise."""
-    if isinstance(expr, ast.Call):
-        d = dotted(expr.func) or ""
-        parts = d.split(".")
-        if len(parts) == 3 and parts[0] == "self" and parts[1] in ("impl_instance", "impl") and parts[2].endswith("_processor"):
-            return ("impl", parts[2])
-    if isinstance(expr, ast.Attribute):
-        d = dotted(expr) or ""
-        if d.startswith("self.process_"):
-            return ("user", d.split(".", 1)[1])
+class _Hook(Abs):
+    """bound user hook `self.process_*`"""
+
+    def __init__(self, name):
+        self.name = name
+
+
+class _Flag(Abs):
+    """boolean: is user hook <hook> overridden (`self._has_*`, `util.method_is_overridden(self, TypeDecorator.process_*)`)"""
+
+    def __init__(self, hook):
+        self.hook = hook
+        self.truth_var = "overridden:" + hook
+
+
+class _ImplRecv(Abs):
+    """`self.impl_instance` / `self.impl`"""
+
+
+class _ImplMeth(Abs):
+    def __init__(self, kind):
+        self.kind = kind
+
+
+class _ImplProc(Abs):
+    """what `self.impl_instance.<kind>(...)` returned: a callable or None (one path variable per kind)"""
+
+    def __init__(self, kind):
+        self.kind = kind
+        self.truth_var = "impl:" + kind
+        self.none_var = ("impl:" + kind, False)
+
+
+class _Val(Abs):
+    """the value handed to a generated processor after `stages` were applied to it"""
+
+    def __init__(self, stages=()):
+        self.stages = tuple(stages)
+        tag = ">".join(self.stages) or "raw"
+        self.truth_var = "truthy:value@" + tag
+        self.none_var = ("none:value@" + tag, True)
+
+    def __repr__(self):
+        return "<value" + "".join(f" -> {s}" for s in self.stages) + ">"
+
+
+def _flag_hook(ctx, cls, attr):
+    """user hook whose overriding the memoized property `self.<attr>` reports (read from the property's body:
+    `util.method_is_overridden(self, TypeDecorator.process_X)`); None when it is not such a property."""
+    f = ctx.index.resolve_method(cls, attr)
+    if f is None:
+        return None
+    hooks = set()
+    for c in calls_in(f.node):
+        if (call_name(c) or "").rsplit(".", 1)[-1] == "method_is_overridden":
+            for a in c.args:
+                if isinstance(a, ast.Attribute) and a.attr.startswith("process_"):
+                    hooks.add(a.attr)
+    if len(hooks) == 1:
+        ctx.functions_analysed.add(f.key)
+        return next(iter(hooks))
     return None
 
 
-def _composition(ret: ast.AST, inner_fn: ast.FunctionDef, outer: ast.AST):
-    """[(role, which)] from the outermost call to the innermost for `return a(b(value, ..), ..)`;
-    None when the expression is not a pure call chain over the processor's own parameter."""
-    chain = []
-    e = ret
-    pname = inner_fn.args.args[0].arg
-    while isinstance(e, ast.Call):
-        roles = set()
-        if isinstance(e.func, ast.Name):
-            for t in _terminals(e.func.id, outer):
-                r = _role(t)
-                roles.add(r)
-        else:
-            roles.add(_role(e.func))
-        if len(roles) != 1 or None in roles:
-            return None
-        chain.append(next(iter(roles)))
-        if not e.args:
-            return None
-        e = e.args[0]
-    if not (isinstance(e, ast.Name) and e.id == pname):
+def _r1_interp(ctx, cls, f):
+    def attr(n, base, env, ix):
+        if isinstance(base, _Self):
+            if n.attr.startswith("process_"):
+                return _Hook(n.attr)
+            if n.attr in ("impl_instance", "impl"):
+                return _ImplRecv()
+            h = _flag_hook(ctx, cls, n.attr) if n.attr.startswith("_") else None
+            if h is not None:
+                return _Flag(h)
+            return NotImplemented
+        if isinstance(base, _ImplRecv) and n.attr.endswith("_processor"):
+            return _ImplMeth(n.attr)
+        return NotImplemented
+
+    def call(n, fval, args, kwargs, env, ix):
+        if isinstance(fval, _ImplMeth):
+            return _ImplProc(fval.kind)
+        if isinstance(fval, _Hook):
+            if args and isinstance(args[0], _Val):
+                return _Val(args[0].stages + ("user:" + fval.name,))
+            return Opq(unparse(n))
+        if isinstance(fval, _ImplProc):
+            if not ix.decide(fval.truth_var):
+                ix.events.append(("calls-none", fval.kind))
+            if args and isinstance(args[0], _Val):
+                return _Val(args[0].stages + ("impl:" + fval.kind,))
+            return Opq(unparse(n))
+        if isinstance(fval, Opq) and fval.text.rsplit(".", 1)[-1] == "method_is_overridden" and len(args) >= 2 \
+                and isinstance(args[1], Opq) and args[1].text.rsplit(".", 1)[-1].startswith("process_"):
+            return _Flag(args[1].text.rsplit(".", 1)[-1])
+        return NotImplemented
+
+    def resolver(n, fval):
+        fn = n.func
+        if isinstance(fn, ast.Attribute) and isinstance(fn.value, ast.Name) and fn.value.id == "self":
+            tgt = ctx.index.resolve_method(cls, fn.attr)
+            if tgt is not None and isinstance(tgt.node, ast.FunctionDef) and not tgt.type_only:
+                ctx.functions_analysed.add(tgt.key)
+                deco = set(tgt.decorators)
+                return (tgt.node, {} if "staticmethod" in deco else {tgt.params[0]: _Self()} if tgt.params else {})
+        if isinstance(fn, ast.Name):
+            tgt = f.module.functions.get(fn.id)
+            if tgt is not None and isinstance(tgt.node, ast.FunctionDef):
+                ctx.functions_analysed.add(tgt.key)
+                return (tgt.node, {})
         return None
-    return chain
+
+    return PathInterp(attr=attr, call=call, resolver=resolver, what=f.key)
 
 
-@R.rule("C09-R1", floor=10, template="T-FLOW",
-        desc="TypeDecorator processor composition: bind/literal = impl(user(value)), result = user(impl(value)); each "
-             "stage at most once, kinds match; without a user hook the impl processor is returned as is")
+def _fmt_stages(stages):
+    e = "value"
+    for s in stages:
+        e = f"{s}({e})"
+    return e
+
+
+@R.rule("C09-R1", floor=11, template="T-FLOW",
+        desc="TypeDecorator processor composition, decided per path (user hook overridden or not x impl processor present or "
+             "not): bind/literal = impl(user(value)), result = user(impl(value)); each stage exactly once, kinds match; with a "
+             "user hook but no impl processor the user hook alone; without a user hook the impl processor is returned as is")
 def r1(ctx):
     cls = ctx.index.cls(TD)
     for meth, spec in KINDS.items():
@@ -117,57 +191,117 @@ def r1(ctx):
             ctx.violation(f"{TD}.{meth}", f"TypeDecorator.{meth} is not defined: user hooks would never run", cls.loc)
             continue
         ctx.functions_analysed.add(f.key)
-        pm = f.module.parents()
-        inner = sorted((n for n in walk_local(f.node) if isinstance(n, ast.FunctionDef)), key=lambda n: n.lineno)
-        ctx.require(inner, f"{meth}: no generated processor function")
-        for i, fn in enumerate(inner, 1):
-            key = f"{f.key}:process#{i}"
-            loc = f"{f.module.path}:{fn.lineno}"
-            rets = [r for r in ast.walk(fn) if isinstance(r, ast.Return) and r.value is not None]
-            ctx.require(len(rets) == 1 and len(fn.body) == 1, f"{key}: generated processor is not a single return")
-            chain = _composition(rets[0].value, fn, f.node)
-            ctx.require(chain is not None, f"{key}: `{unparse(rets[0].value)[:80]}` is not a call chain over known stages")
-            roles = [r for r, _ in chain]
-            problems = []
-            if roles.count("user") != 1:
-                problems.append(f"user hook applied {roles.count('user')} times")
-            if roles.count("impl") > 1:
-                problems.append(f"impl processor applied {roles.count('impl')} times")
-            want = ["impl", "user"] if spec["order"] == "impl(user)" else ["user", "impl"]
-            if len(roles) == 2 and roles != want:
-                problems.append(f"order is {roles[0]}({roles[1]}(value)), documented {spec['order']}")
-            for r, which in chain:
-                if r == "impl" and which != spec["impl"]:
-                    problems.append(f"wraps the impl's {which}, not its {spec['impl']}")
-                if r == "user" and which not in spec["user"]:
-                    problems.append(f"calls {which}, not {'/'.join(sorted(spec['user']))}")
-            # a variant without the impl stage is only generated when the impl has no processor
-            if "impl" not in roles:
-                atoms = guard_atoms(lexical_guards(pm, fn, stop=f.node))
-                if not any(p is False and a.endswith("impl_processor") for a, p in atoms):
-                    problems.append("impl stage omitted although an impl processor may exist")
-            # the generated function is what is returned
-            ctx.check(not problems, key, f"TypeDecorator.{meth}: " + "; ".join(problems),
-                      " -> ".join(f"{r}:{w}" for r, w in chain), loc)
-        # fall-through: no user processing -> the impl's processor of the same kind, unchanged
-        direct = [r for r in walk_local(f.node) if isinstance(r, ast.Return) and r.value is not None
-                  and _role(r.value) is not None]
-        good = len(direct) == 1 and _role(direct[0].value) == ("impl", spec["impl"])
-        if good:
-            # it must be the branch where no user hook is present: every enclosing test that mentions a
-            # hook (`self._has_*_processor`, `process_*`) is taken on its false side
-            hook_guards = [(t, pol) for t, pol in lexical_guards(pm, direct[0], stop=f.node)
-                           if any(isinstance(x, (ast.Name, ast.Attribute)) and ("process_" in (dotted(x) or "") or "_has_" in (dotted(x) or ""))
-                                  for x in ast.walk(t))]
-            good = bool(hook_guards) and all(pol is False for t, pol in hook_guards)
-        ctx.check(good, f"{f.key}:no-user-hook",
-                  f"TypeDecorator.{meth} without a user hook does not return self.impl_instance.{spec['impl']}(...) unchanged "
-                  f"({[unparse(r.value)[:60] for r in direct]})",
-                  f"returns impl {spec['impl']} as is", f.loc)
-        # every generated processor is returned
-        names = {fn.name for fn in inner}
-        ret_names = [r.value.id for r in walk_local(f.node) if isinstance(r, ast.Return) and isinstance(r.value, ast.Name)]
-        ctx.require(set(ret_names) <= names | {"None"}, f"{meth}: returns {ret_names}, expected the generated processors")
+        hooks = spec["hooks"]
+        ivar = "impl:" + spec["impl"]
+        env = {p: Opq(p) for p in f.params}
+        ctx.require(f.params and f.params[0] == "self", f"{f.key}: not an instance method")
+        env["self"] = _Self()
+        try:
+            paths = _r1_interp(ctx, cls, f).run_function(f.node, env)
+        except Unsupported as e:
+            ctx.require(False, f"{f.key}: {e}")
+        relevant = ["overridden:" + h for h in hooks] + [ivar]
+        cases: dict = {}
+        for assume, kind, value, events in paths:
+            free = [v for v in relevant if v not in assume]
+            for bits in itertools.product((True, False), repeat=len(free)):
+                full = dict(assume)
+                full.update(zip(free, bits))
+                active = next((h for h in hooks if full["overridden:" + h]), None)
+                has_impl = full[ivar]
+                if active is None:
+                    label = "no-user-hook"
+                else:
+                    label = (active if len(hooks) > 1 else "user-hook") + ("+impl" if has_impl else "-only")
+                rec = cases.setdefault(label, {"problems": [], "unknown": [], "ok": [], "n": 0})
+                if kind == "raise":
+                    continue
+                rec["n"] += 1
+                _r1_judge(ctx, f, spec, active, has_impl, hooks, full, value, rec)
+        for label, rec in sorted(cases.items()):
+            key = f"{f.key}:{label}"
+            ctx.require(not rec["unknown"], f"{key}: {rec['unknown'][:2]} (not understood)")
+            ctx.require(rec["n"] > 0, f"{key}: every path raises")
+            ctx.check(not rec["problems"], key, f"TypeDecorator.{meth} [{label}]: " + "; ".join(sorted(set(rec["problems"]))),
+                      " | ".join(sorted(set(rec["ok"]))), f.loc)
+
+
+def _r1_judge(ctx, f, spec, active, has_impl, hooks, full, value, rec):
+    kind = spec["impl"]
+    if active is None:
+        # no user processing -> the impl's processor of the same kind, unchanged
+        if isinstance(value, _ImplProc):
+            if value.kind != kind:
+                rec["problems"].append(f"without a user hook the impl's {value.kind} is returned, not its {kind}")
+            else:
+                rec["ok"].append(f"returns impl {kind} as is")
+        elif value is None and not has_impl:
+            rec["ok"].append("returns None (the impl has no processor)")
+        elif isinstance(value, Closure):
+            rec["problems"].append(f"without a user hook a generated wrapper is returned instead of self.impl_instance.{kind}(...) unchanged")
+        elif value is None:
+            rec["problems"].append(f"without a user hook None is returned although the impl has a {kind}: the impl's conversion is lost")
+        else:
+            rec["unknown"].append(f"without a user hook `{value!r}` is returned")
+        return
+    fallback = active != hooks[0]
+    want = ("user:" + active, "impl:" + kind) if spec["order"] == "impl(user)" else ("impl:" + kind, "user:" + active)
+    if not has_impl:
+        want = ("user:" + active,)
+    if not isinstance(value, Closure):
+        if value is None and fallback and not has_impl:
+            rec["ok"].append(f"{active} fallback without an impl {kind}: None")
+        elif isinstance(value, _ImplProc) or value is None:
+            rec["problems"].append(f"{active} is overridden but {'None' if value is None else 'the bare impl ' + value.kind} is returned: the user hook never runs")
+        else:
+            rec["unknown"].append(f"with {active} overridden `{value!r}` is returned")
+        return
+    if fallback and not has_impl:
+        rec["problems"].append(f"{active} fallback generates a processor although the impl has no {kind}")
+        return
+    sub = _r1_interp(ctx, ctx.index.cls(TD), f)
+    try:
+        inner = sub.explore(lambda ix: ix.call_closure(value, [_Val()]), initial=full)
+    except Unsupported as e:
+        rec["unknown"].append(str(e))
+        return
+    for assume2, k2, v2, ev2 in inner:
+        if k2 == "raise":
+            rec["problems"].append("the generated processor raises on a path")
+            continue
+        if any(e[0] == "calls-none" for e in ev2):
+            rec["problems"].append(f"the generated processor calls the impl processor although the impl has no {kind} (None is called)")
+            continue
+        if not isinstance(v2, _Val):
+            if v2 is None or isinstance(v2, (str, int, bool)):
+                rec["problems"].append(f"the generated processor returns the constant {v2!r} on a path instead of the processed value")
+            else:
+                rec["unknown"].append(f"the generated processor returns `{v2!r}`")
+            continue
+        got = v2.stages
+        if got == want:
+            rec["ok"].append(_fmt_stages(got))
+            continue
+        probs = []
+        users = [s for s in got if s.startswith("user:")]
+        impls = [s for s in got if s.startswith("impl:")]
+        if len(users) != 1:
+            probs.append(f"user hook applied {len(users)} times")
+        if len(impls) > 1:
+            probs.append(f"impl processor applied {len(impls)} times")
+        if has_impl and not impls:
+            probs.append("impl stage omitted although an impl processor exists")
+        for s in impls:
+            if s != "impl:" + kind:
+                probs.append(f"wraps the impl's {s[5:]}, not its {kind}")
+        for s in users:
+            if s[5:] not in spec["user"]:
+                probs.append(f"calls {s[5:]}, not {'/'.join(sorted(spec['user']))}")
+            elif s != "user:" + active:
+                probs.append(f"calls {s[5:]} although {active} is the overridden hook")
+        if len(users) == 1 and len(impls) == 1 and not probs:
+            probs.append(f"order is {_fmt_stages(got)}, documented {_fmt_stages(want)}")
+        rec["problems"].append(f"generated processor computes {_fmt_stages(got)}: " + "; ".join(probs or [f"documented {_fmt_stages(want)}"]))
 
 
 def _returns_only_none(f: FuncInfo) -> bool:
